@@ -101,9 +101,10 @@ def chordFix (ht ln qq : Int) (v : Option Int) (e : NoteEv) : NoteEv :=
   let e := if qq ≠ 0 then { e with dur := tdiv (ln * qq) 100 } else e
   match v with | some vv => (if vv < 0 then e else { e with vel := vv }) | none => e
 
+/-- the `^` parts of a length (a tuplet counts each `^`; parts joined by `+` are not counted separately) -/
 def hats : Option LenExpr → Int
   | none => 0
-  | some L => L.parts.length
+  | some L => (L.parts.filter (fun p => p.1 == 94)).length
 
 mutual
 /-- the counted elements of a tuplet body: notes, rests, nested tuplets and each `^`/`+` part of
